@@ -11,19 +11,14 @@
      backend with exactly the reference's mailbox and options (all other
      fields zero, they come from mo_zero / ro_zero), followed by the reply
      that belongs to the backend's scripted answer.
-   - C11_invalid_refused_mail_partial / _rcpt_partial: an Invalid line is
-     answered by a single 5xx reply and no callback - PROVIDED the line does
-     not use one of the two deviations go-smtp accepts:
-       fold_trap       : U+017F / U+0131 in a keyword, mapped to S / I by
-                         Go's Unicode strings.ToUpper ("ſIZE=1" = SIZE=1);
-       flag_with_value : SMTPUTF8=x / REQUIRETLS=x (the value is ignored).
-     "_partial": the full statement
-         classify_mail cfg arg = Invalid -> refused (snd (handle_mail cfg c arg))
-     is FALSE for the implementation, see C11_refuted_*: witnesses on which
-     the line is Invalid and the backend is called (reproduced against the
-     real server by the c11 correspondence cases; known-finding signatures
-     C11-unicode-fold and C11-flag-value).  Nothing else is missing: the two
-     hypotheses are exactly the complement of the refutations' root causes. *)
+   - C11_invalid_refused_mail / _rcpt: an Invalid line is answered by a single
+     5xx reply and no callback - for every line.  (Until the repairs
+     "fix: MAIL/RCPT parameter keywords were upper-cased with Unicode
+     strings.ToUpper" and "fix: SMTPUTF8 and REQUIRETLS were accepted with a
+     value" these were _partial, with hypotheses excluding keywords written
+     with U+017F / U+0131 and SMTPUTF8=x / REQUIRETLS=x, and C11_refuted_*
+     exhibited such lines reaching the backend.  The former witnesses are now
+     Examples of refusal: C11_former_findings_refused.) *)
 From Smtp Require Import Bytes Reply Rfc3339 Conn RefGrammar RefGrammarProofs.
 
 Theorem C11_valid_exact_mail (cfg : config) (c : conn) (arg from : bytes) (opts : mail_opts) :
@@ -40,19 +35,19 @@ Theorem C11_valid_exact_rcpt (cfg : config) (c : conn) (arg rcpt : bytes) (opts 
 Proof. exact (valid_exact_rcpt cfg c arg rcpt opts). Qed.
 Print Assumptions C11_valid_exact_rcpt.
 
-Theorem C11_invalid_refused_mail_partial (cfg : config) (c : conn) (arg : bytes) :
+Theorem C11_invalid_refused_mail (cfg : config) (c : conn) (arg : bytes) :
   c_helo c <> [] -> c_bdat c = None ->
-  classify_mail cfg arg = Invalid -> fold_trap arg = false -> flag_with_value arg = false ->
+  classify_mail cfg arg = Invalid ->
   refused (snd (handle_mail cfg c arg)).
 Proof. exact (invalid_refused_mail_5xx cfg c arg). Qed.
-Print Assumptions C11_invalid_refused_mail_partial.
+Print Assumptions C11_invalid_refused_mail.
 
-Theorem C11_invalid_refused_rcpt_partial (cfg : config) (c : conn) (arg : bytes) :
+Theorem C11_invalid_refused_rcpt (cfg : config) (c : conn) (arg : bytes) :
   c_from c = true -> c_bdat c = None -> rcpt_limit_free cfg c ->
-  classify_rcpt cfg arg = Invalid -> fold_trap arg = false ->
+  classify_rcpt cfg arg = Invalid ->
   refused (snd (handle_rcpt cfg c arg)).
 Proof. exact (invalid_refused_rcpt_5xx cfg c arg). Qed.
-Print Assumptions C11_invalid_refused_rcpt_partial.
+Print Assumptions C11_invalid_refused_rcpt.
 
 (* a refused command calls nothing *)
 Theorem C11_refused_no_callback (evs : list event) :
@@ -61,30 +56,27 @@ Theorem C11_refused_no_callback (evs : list event) :
 Proof. exact (refused_no_callback evs). Qed.
 Print Assumptions C11_refused_no_callback.
 
-(* the deviations: Invalid lines that reach the backend *)
-Theorem C11_refuted_unicode_fold_mail :
-  let arg := bs "FROM:<a@b> " ++ long_s ++ bs "IZE=1" in
-  classify_mail cfg_all arg = Invalid /\
-  snd (handle_mail cfg_all (conn_ready false) arg)
-  = mail_ok_events (bs "a@b") (mkMO [] 1 false false [] [] None) BNil.
-Proof. exact refuted_unicode_fold_mail. Qed.
-Print Assumptions C11_refuted_unicode_fold_mail.
-
-Theorem C11_refuted_unicode_fold_rcpt :
-  let arg := bs "TO:<a@b> NOT" ++ dotless_i ++ bs "FY=NEVER" in
-  classify_rcpt cfg_all arg = Invalid /\
-  snd (handle_rcpt cfg_all (conn_ready true) arg)
-  = rcpt_ok_events (bs "a@b") (mkRO [bs "NEVER"] [] [] None) BNil.
-Proof. exact refuted_unicode_fold_rcpt. Qed.
-Print Assumptions C11_refuted_unicode_fold_rcpt.
-
-Theorem C11_refuted_flag_value_mail :
-  let arg := bs "FROM:<a@b> SMTPUTF8=1" in
-  classify_mail cfg_all arg = Invalid /\
-  snd (handle_mail cfg_all (conn_ready false) arg)
-  = mail_ok_events (bs "a@b") (mkMO [] 0 false true [] [] None) BNil.
-Proof. exact refuted_flag_value_mail. Qed.
-Print Assumptions C11_refuted_flag_value_mail.
+(* the lines that exhibited the two former findings: Invalid, and refused *)
+Example C11_former_findings_refused :
+  (let arg := bs "FROM:<a@b> " ++ long_s ++ bs "IZE=1" in
+   fold_trap arg = true /\ classify_mail cfg_all arg = Invalid /\
+   snd (handle_mail cfg_all (conn_ready false) arg)
+   = [reply 500 (5, 5, 4)%Z (bs "Unknown MAIL FROM argument")]) /\
+  (let arg := bs "TO:<a@b> NOT" ++ dotless_i ++ bs "FY=NEVER" in
+   fold_trap arg = true /\ classify_rcpt cfg_all arg = Invalid /\
+   snd (handle_rcpt cfg_all (conn_ready true) arg)
+   = [reply 500 (5, 5, 4)%Z (bs "Unknown RCPT TO argument")]) /\
+  (let a1 := bs "FROM:<a@b> SMTPUTF8=1" in
+   let a2 := bs "FROM:<a@b> REQUIRETLS=yes" in
+   let a3 := bs "FROM:<a@b> SMTPUTF8=" in
+   flag_with_value a1 = true /\ flag_with_value a2 = true /\ flag_with_value a3 = true /\
+   classify_mail cfg_all a1 = Invalid /\ classify_mail cfg_all a2 = Invalid /\
+   classify_mail cfg_all a3 = Invalid /\
+   snd (handle_mail cfg_all (conn_ready false) a1) = [reply 501 (5, 5, 4)%Z (bs "SMTPUTF8 takes no value")] /\
+   snd (handle_mail cfg_all (conn_ready false) a2) = [reply 501 (5, 5, 4)%Z (bs "REQUIRETLS takes no value")] /\
+   snd (handle_mail cfg_all (conn_ready false) a3) = [reply 501 (5, 5, 4)%Z (bs "Unable to parse MAIL ESMTP parameters")]).
+Proof. exact (conj unicode_fold_mail_refused (conj unicode_fold_rcpt_refused flag_value_mail_refused)). Qed.
+Print Assumptions C11_former_findings_refused.
 
 (* non-vacuity: the hypotheses are satisfiable together, on a concrete
    admissible state, for a line with every MAIL parameter and for a line with
@@ -108,6 +100,5 @@ Proof. vm_compute. repeat split; reflexivity. Qed.
 Example C11_witness_invalid :
   let c := conn_ready false in
   let arg := bs "FROM:<a@b> SIZE=1x" in
-  c_helo c <> [] /\ c_bdat c = None /\ classify_mail cfg_all arg = Invalid /\
-  fold_trap arg = false /\ flag_with_value arg = false.
+  c_helo c <> [] /\ c_bdat c = None /\ classify_mail cfg_all arg = Invalid.
 Proof. vm_compute. repeat split; try reflexivity; discriminate. Qed.
